@@ -322,7 +322,8 @@ func driverMain() {
 		"after every restart also a filter query (`w=w<r>`: exactly the visible events that match); every third history is a persistent-query history (the filter asked on the empty index before the first event: every flush appends the block's match bits to <segkey>/pqmr/<pqid>.pqmr, consecutive blocks of a segment have different match sets; in every crash state each pqmr file is read by the real ReadPqmr and compared with what the traced writer had appended, and the query's per-block answer with the searcher model); " +
 		"histories end with an open segment, a rotation or a graceful shutdown (ForcedFlushToSegfile with 0..n events in the buffer: buffer flush + rotation in one call; the RotateSegment hook of siglens marks the return of the buffer flush); " +
 		"quick: stratified sample of k (every protocol token boundary of sfm/bsu/sst/segmeta + random; every call boundary from the return of the shutdown's buffer flush to the rename of the final .sfm; persistent-query history: every boundary of the pqmr appends + 7 others), thorough: every k; non-trivial = at least one flush had started; distinct by (history, k); " +
-		"metadata-rewrite stream: a traced worker rotates segments of two indexes and runs a real rewrite of segmeta.json (retention cleaner; thorough: also the delete-index handler and AddOrReplaceRotatedSegmeta); crash states = call boundaries of its calls on segmeta.json(.tmp) + short writes on the temporary file; each is replayed, the real server restarts, runs a second real rewrite to its end, segmeta.json is read (bytes + the real reader), the server restarts again and is queried")
+		"metadata-rewrite stream: a traced worker rotates segments of two indexes and runs a real rewrite of segmeta.json (retention cleaner; thorough: also the delete-index handler and AddOrReplaceRotatedSegmeta); crash states = call boundaries of its calls on segmeta.json(.tmp) + short writes on the temporary file; each is replayed, the real server restarts, runs a second real rewrite to its end, segmeta.json is read (bytes + the real reader), the server restarts again and is queried; " +
+		"index-names stream: a traced worker flushes into several indexes, some of them registered (first event: append to virtualtablenames.txt) after completed flushes of the others; every byte prefix of the appended stream is read by the real reader; crash states inside those registrations (call boundaries, the record without its newline, a torn name; thorough: every byte) are replayed, the real server restarts and is queried on every index, flushes into all indexes and a brand-new one, is gone, restarts again and is queried")
 	r := vhlib.NewRng(cfg.Seed)
 	self, _ := os.Executable()
 	nh := 3
@@ -336,6 +337,14 @@ func driverMain() {
 		defer close(metaDone)
 		if v := os.Getenv("C07_ONLY_H"); v == "" || v == "meta" {
 			metaStream(cfg, sum, self)
+		}
+	}()
+	// the index-names stream (names.go): crash inside the registration of a new index, two generations; own directories
+	namesDone := make(chan struct{})
+	go func() {
+		defer close(namesDone)
+		if v := os.Getenv("C07_ONLY_H"); (v == "" || v == "names") && os.Getenv("C07_SKIP_NAMES") == "" {
+			namesStream(cfg, sum, self)
 		}
 	}()
 	for hi := 0; hi < nh; hi++ {
@@ -560,6 +569,7 @@ func driverMain() {
 		_ = os.RemoveAll(run1)
 	}
 	<-metaDone
+	<-namesDone
 	sum.Write(cfg.Out)
 }
 
